@@ -87,6 +87,15 @@ def check(ctx):
               "`define SEL_IMPL LEAF\n`define SEL `SEL``_IMPL\n`SEL\n", "`define REG(p) p``REG\n`REG(LEAF_)\n",
               "`define A(x) x\n`define B `A(`A(`A(LEAF)))\n`B\n", "`define NAME NAME_is_LEAF\n`NAME\n"]:
         pcs.append(ppx.PC({"top.sv": t}, tag="own-name-no-cycle")); exp.append(("ok",))
+    # chains and cycles that pass through a name the preprocessor predefines (the SV_COV_* constants may be redefined like
+    # any macro; caller-supplied or source-level, the redefinition holds in nested expansions and included files too)
+    for nm in ("SV_COV_OK", "SV_COV_START", "SV_COV_PARTIAL"):
+        pcs.append(ppx.PC({"top.sv": "`define %s `A\n`define A `%s\nx `A y\n" % (nm, nm)}, tag="cycle-through-predefined")); exp.append(("err", 0))
+        pcs.append(ppx.PC({"top.sv": "`define %s `%s\n`%s\n" % (nm, nm, nm)}, tag="cycle-through-predefined")); exp.append(("err", 0))
+        pcs.append(ppx.PC({"top.sv": "`define %s LEAF\n`define B `%s\n`define C `B\nx `C y\n" % (nm, nm)}, tag="chain-through-predefined")); exp.append(("ok",))
+        pcs.append(ppx.PC({"top.sv": "`define %s `include \"top.sv\"\nh\n`%s\n" % (nm, nm)}, tag="include-cycle-through-predefined")); exp.append(("err", LIMIT + 1))
+        pcs.append(ppx.PC({"top.sv": "`define %s LEAF\n`include \"i.svh\"\n" % nm, "i.svh": "`define D `%s\n`D\n" % nm}, tag="chain-through-predefined")); exp.append(("ok",))
+        pcs.append(ppx.PC({"top.sv": "`define E `%s\nx `E y\n" % nm}, predefs=[(nm, [], "LEAF")], tag="chain-through-predefined")); exp.append(("ok",))
     # short chains that carry a long text (the limit is on nesting, not on size)
     big = ", ".join("item_%d" % i for i in range(9000))          # ~100 KiB
     pcs.append(ppx.PC({"top.sv": "`define M1(x) `M2(x)\n`define M2(x) [x] LEAF\n`M1(%s)\n" % big}, tag="long-text")); exp.append(("ok",))
@@ -95,7 +104,7 @@ def check(ctx):
     # the same families with the other flags on
     extra = []
     for pc, e in list(zip(pcs, exp))[:: (7 if q else 3)]:
-        extra.append((ppx.PC(pc.files, strip=True, predefs=[("Q", None)], tag=pc.tag + "+strip"), e))
+        extra.append((ppx.PC(pc.files, strip=True, predefs=list(pc.predefs) + [("Q", None)], incdirs=pc.incdirs, tag=pc.tag + "+strip"), e))
     pcs += [x[0] for x in extra]; exp += [x[1] for x in extra]
     # every case ends within seconds or not at all: a short limit, so that a run that does not return is found by bisection quickly
     slow = [i for i, pc in enumerate(pcs) if "two-routes" in (pc.tag or "")]
